@@ -99,6 +99,26 @@ template <size_t N, class T> static void factories_h()
     vf_observe_u64(N);
 }
 
+// the factories called with a MIXED-type argument pack (each argument converts to T on its own: no detour through a common type).
+// clang treats the narrowing inside the library's braces as an error by default; the unit is compiled with -Wno-c++11-narrowing,
+// which is what g++ does for non-constant operands.
+template <class T> static void factories_mixed_h()
+{
+    int32_t i = vf::nondet<int32_t>();
+    uint32_t u = vf::nondet<uint32_t>();
+    float f = vf::nondet<float>();
+    auto t2 = algebra::affine<2, T>::translation(i, u);
+    auto s2 = algebra::affine<2, T>::scaling(i, u);
+    vf_assert(vf::same_bits<T>(t2(0, 2), static_cast<T>(i)) && vf::same_bits<T>(t2(1, 2), static_cast<T>(u)), 1);
+    vf_assert(vf::same_bits<T>(s2(0, 0), static_cast<T>(i)) && vf::same_bits<T>(s2(1, 1), static_cast<T>(u)), 2);
+    auto t3 = algebra::affine<3, T>::translation(i, f, u);
+    auto s3 = algebra::affine<3, T>::scaling(u, i, f);
+    vf_assert(vf::same_bits<T>(t3(0, 3), static_cast<T>(i)) && vf::same_bits<T>(t3(1, 3), static_cast<T>(f)) && vf::same_bits<T>(t3(2, 3), static_cast<T>(u)), 3);
+    vf_assert(vf::same_bits<T>(s3(0, 0), static_cast<T>(u)) && vf::same_bits<T>(s3(1, 1), static_cast<T>(i)) && vf::same_bits<T>(s3(2, 2), static_cast<T>(f)), 4);
+    vf_assert(vf::same_bits<T>(t2(0, 0), T(1)) && vf::same_bits<T>(t2(0, 1), T(0)) && vf::same_bits<T>(s3(0, 1), T(0)) && vf::same_bits<T>(s3(2, 3), T(0)), 5);
+    vf_observe_u64(2);
+}
+
 // the layer affine<probe> queries the probe once at A x + t and returns its value
 template <size_t N, size_t M, class T> static void layer_h()
 {
